@@ -7,7 +7,7 @@ use crate::{
         node::RustNode,
         structures::element::ElementType,
         helpers::{write_check_restrictions_footer, write_check_restrictions_header},
-        structures::{as_string_literal_content, xml_name_to_rust_name},
+        structures::{as_identifier, as_string_literal_content, xml_name_to_rust_name},
     },
     reader::WriteXml,
 };
@@ -24,7 +24,7 @@ where
             writeln!(writer, "\n/* {operation_name} */\n")?;
 
             // input
-            let operation_name = to_pascal_case(operation_name);
+            let operation_name = as_identifier(&to_pascal_case(operation_name));
             let envelope_name = format!("{operation_name}InputEnvelope");
             let soap_operation = &operation.input;
             write_soap_operation(writer, &envelope_name, soap_operation, &self.target_namespaces)?;
